@@ -3,6 +3,7 @@ import BU.Spec.Ecdsa
 import BU.Spec.CurveLaws
 import BU.Model.Sign
 import BU.Proofs.DerLemmas
+import BU.Proofs.EcdsaLemmas
 /-!
 # C06 — ECDSA input signatures are valid, strictly DER, low-S, low-R and deterministic
 
@@ -11,7 +12,7 @@ M: `Model.grind` / `Model.normalise` / `Model.signInput` — the repository's ow
 parameter: its DER codec is `Spec.derEncode/derDecode`, its per-attempt signatures are inputs.
 -/
 namespace C06
-open Py Spec Model Secp
+open Py Spec Model Secp DerLemmas EcdsaLemmas
 
 /-- **every (r, s) class** (s just below/above n/2, s with high bit, n−s with leading zero bytes, short r …):
 normalising the DER encoding of (r, s) yields a strictly DER (BIP66) signature followed by exactly the
@@ -20,14 +21,30 @@ theorem normalise_strict_lowS (r s : Nat) (hr0 : 0 < r) (hr : r < n) (hs0 : 0 < 
     ∃ out s', normalise (derEncode r s) ht = .ok out ∧ isStrictDer out = true ∧
       out.getLast? = some (UInt8.ofNat ht) ∧ derDecode out.dropLast = some (r, s') ∧
       lowS s' = true ∧ 0 < s' ∧ (s' = s ∨ s' = n - s) := by
-  sorry
+  have hn256 := n_lt_two_pow_256
+  have hdec := derDecode_encode r s hr0 (by omega) hs0 (by omega)
+  have hnorm : normalise (derEncode r s) ht =
+      .ok (derEncode r (if s > n / 2 then n - s else s) ++ [UInt8.ofNat ht]) := by
+    simp only [normalise, hdec, pack_B ht hht, bind, Except.bind, pure, Except.pure]
+  have hs'0 : 0 < (if s > n / 2 then n - s else s) := by split <;> omega
+  have hs'n : (if s > n / 2 then n - s else s) < 2 ^ 256 := by split <;> omega
+  refine ⟨_, if s > n / 2 then n - s else s, hnorm, ?_, ?_, ?_, ?_, hs'0, ?_⟩
+  · exact isStrictDer_encode r _ hr0 (by omega) hs'0 hs'n _
+  · exact List.getLast?_concat
+  · rw [List.dropLast_concat]
+    exact derDecode_encode r _ hr0 (by omega) hs'0 hs'n
+  · simp only [lowS, decide_eq_true_eq]; split <;> omega
+  · split
+    · exact Or.inr rfl
+    · exact Or.inl rfl
 
 /-- the grinding loop returns the first attempt whose r is below 2^255 (low R: 32-byte r, no sign byte) -/
 theorem grind_first_lowR (atts : List (Nat × Nat)) (hw : ∀ a ∈ atts, 0 < a.1 ∧ a.1 < 2 ^ 256)
     (sig : Bytes) (k : Nat) (h : grind (atts.map fun a => derEncode a.1 a.2) 0 = .ok (sig, k)) :
     ∃ r s, atts[k]? = some (r, s) ∧ sig = derEncode r s ∧ r < 2 ^ 255 ∧
       ∀ j, j < k → ∀ rj sj, atts[j]? = some (rj, sj) → 2 ^ 255 ≤ rj := by
-  sorry
+  obtain ⟨_, r, s, h1, h2, h3, h4⟩ := grind_from atts hw 0 sig k h
+  exact ⟨r, s, h1, h2, h3, h4⟩
 
 /-- the whole of `_sign_input` on what the signer returned per attempt: strict DER, low S, low R, hash type -/
 theorem sign_input_spec (atts : List (Nat × Nat)) (hw : ∀ a ∈ atts, 0 < a.1 ∧ a.1 < n ∧ 0 < a.2 ∧ a.2 < n)
@@ -35,13 +52,27 @@ theorem sign_input_spec (atts : List (Nat × Nat)) (hw : ∀ a ∈ atts, 0 < a.1
     (h : signInput (atts.map fun a => derEncode a.1 a.2) ht = .ok (out, k)) :
     ∃ r s s', atts[k]? = some (r, s) ∧ isStrictDer out = true ∧ out.getLast? = some (UInt8.ofNat ht) ∧
       derDecode out.dropLast = some (r, s') ∧ r < 2 ^ 255 ∧ lowS s' = true ∧ (s' = s ∨ s' = n - s) := by
-  sorry
+  have hn256 := n_lt_two_pow_256
+  unfold signInput at h
+  cases hg : grind (atts.map fun a => derEncode a.1 a.2) 0 with
+  | error e => rw [hg] at h; cases h
+  | ok p =>
+    obtain ⟨sig, k'⟩ := p
+    obtain ⟨r, s, h1, h2, h3, _⟩ :=
+      grind_first_lowR atts (fun a ha => ⟨(hw a ha).1, by have := (hw a ha).2.1; omega⟩) sig k' hg
+    have hmem : (r, s) ∈ atts := List.mem_of_getElem? h1
+    obtain ⟨hr0, hrn, hs0, hsn⟩ := hw _ hmem
+    obtain ⟨out', s', e1, e2, e3, e4, e5, _, e7⟩ := normalise_strict_lowS r s hr0 hrn hs0 hsn ht hht
+    rw [hg] at h
+    simp only [bind, Except.bind, h2, e1, pure, Except.pure, Except.ok.injEq, Prod.mk.injEq] at h
+    obtain ⟨rfl, rfl⟩ := h
+    exact ⟨r, s, s', h1, e2, e3, e4, h3, e5, e7⟩
 
 /-- replacing s by n − s keeps a signature valid (so the low-S rule never invalidates what the signer produced) -/
 theorem lowS_preserves_validity (laws : CurveLaws) (d : Nat) (hd : 0 < d ∧ d < n) (z r s : Nat)
     (hs : 0 < s ∧ s < n) (hv : ecdsaVerify (mul G d) z r s = true) :
     ecdsaVerify (mul G d) z r (n - s) = true := by
-  sorry
+  exact verify_neg_s laws d hd.2 z r s hs.1 hs.2 hv
 
 /-- non-vacuity: a concrete high-S pair is in the domain and gets flipped -/
 example : (normalise (derEncode 5 (n - 7)) 1).toOption = some (derEncode 5 7 ++ [1]) := by decide +kernel
